@@ -126,6 +126,7 @@ class Interp:
         self.inline_limit = {}
         self.frame_violations = []
         self.atom_defs = {}
+        self.break_free_syms = set()   # ids of z3 string constants declared free of line boundaries
         self.unify_with_solver = False
         self.nonrecursive = set()   # functions whose contract says `decreases: none` (no self-call allowed)
         self.ghost_depth = 0     # >0 while evaluating side-effect-free specification code
@@ -337,6 +338,8 @@ class Interp:
         if isinstance(v, float):
             return v != 0.0
         if is_z3(v) and z3.is_int(v):
+            if getattr(v, '_lb', 0) > 0:
+                return True
             return v != 0
         if isinstance(v, (str, StrT)):
             return ops.str_nonempty(v)
@@ -1133,6 +1136,10 @@ class Interp:
         return res
 
     def compare(self, op, a, b, path):
+        if isinstance(op, (pyast.Eq, pyast.NotEq)):
+            lb = getattr(a, '_lb', None)
+            if lb is not None and isinstance(b, int) and not isinstance(b, bool) and b < lb:
+                return isinstance(op, pyast.NotEq)
         if isinstance(op, pyast.Eq):
             return self.eq(a, b, path)
         if isinstance(op, pyast.NotEq):
@@ -1152,6 +1159,17 @@ class Interp:
                 b = int(b)
             if (isinstance(a, (int, float)) or (is_z3(a) and z3.is_int(a))) and \
                     (isinstance(b, (int, float)) or (is_z3(b) and z3.is_int(b))):
+                lb = getattr(a, '_lb', None)
+                if lb is not None and isinstance(b, int):
+                    # len(f'..literal..{x}') compared with a constant: decided from the literal part alone
+                    if isinstance(op, pyast.Gt) and lb > b:
+                        return True
+                    if isinstance(op, pyast.GtE) and lb >= b:
+                        return True
+                    if isinstance(op, pyast.Lt) and lb >= b:
+                        return False
+                    if isinstance(op, pyast.LtE) and lb > b:
+                        return False
                 if isinstance(op, pyast.Lt):
                     return a < b
                 if isinstance(op, pyast.LtE):
@@ -1191,9 +1209,9 @@ class Interp:
             return s.sym
         e = z3.EmptySet(z3.StringSort())
         for x in s.concrete:
-            if not isinstance(x, str):
+            if not isinstance(x, (str, StrT)):
                 raise Unsupported('non-string set element')
-            e = z3.SetAdd(e, z3.StringVal(x))
+            e = z3.SetAdd(e, to_zstr(x))
         return e
 
     def contains(self, container, item, path):
@@ -1205,7 +1223,8 @@ class Interp:
             return z3.Contains(to_zstr(container), to_zstr(item))
         if isinstance(container, SetV):
             if container.sym is None:
-                if isinstance(item, (str, int, bool)) or item is None or isinstance(item, EnumV):
+                if (isinstance(item, (str, int, bool)) or item is None or isinstance(item, EnumV)) and \
+                        not self.set_has_symbolic(container):
                     return self._concrete_key(item) in {self._concrete_key(x) for x in container.concrete}
                 r = False
                 for x in container.concrete:
@@ -1281,17 +1300,30 @@ class Interp:
                 return a - b
             if isinstance(a, SetV) and isinstance(b, SetV):
                 if a.sym is None and b.sym is None:
-                    return SetV(concrete=set(a.concrete) - set(b.concrete))
+                    res = SetV(concrete=[])
+                    for x in a.concrete:
+                        r = self.contains(b, x, path)
+                        if r is False or (r is not True and not path.branch(r)):
+                            res.concrete.append(x)
+                    return res
                 return SetV(sym=z3.SetDifference(self.set_z3(a), self.set_z3(b)))
         if isinstance(op, pyast.BitOr):
             if isinstance(a, SetV) and isinstance(b, SetV):
                 if a.sym is None and b.sym is None:
-                    return SetV(concrete=set(a.concrete) | set(b.concrete))
+                    res = SetV(concrete=list(a.concrete))
+                    for x in b.concrete:
+                        self.set_add(res, x, path)
+                    return res
                 return SetV(sym=z3.SetUnion(self.set_z3(a), self.set_z3(b)))
         if isinstance(op, pyast.BitAnd):
             if isinstance(a, SetV) and isinstance(b, SetV):
                 if a.sym is None and b.sym is None:
-                    return SetV(concrete=set(a.concrete) & set(b.concrete))
+                    res = SetV(concrete=[])
+                    for x in a.concrete:
+                        r = self.contains(b, x, path)
+                        if r is True or (r is not False and path.branch(r)):
+                            res.concrete.append(x)
+                    return res
                 return SetV(sym=z3.SetIntersect(self.set_z3(a), self.set_z3(b)))
         if isinstance(op, pyast.Mult):
             if self.is_num(a) and self.is_num(b):
@@ -1360,11 +1392,22 @@ class Interp:
                     res.append(x)
             return SetV(concrete=res)
         if all(isinstance(x, (str, StrT)) for x in items):
-            e = z3.EmptySet(z3.StringSort())
+            # finite set of (symbolic) strings: kept as a list of pairwise-different elements
+            s = SetV(concrete=[])
             for x in items:
-                e = z3.SetAdd(e, to_zstr(x))
-            return SetV(sym=e)
+                self.set_add(s, x, path)
+            return s
         raise Unsupported('set of symbolic non-string items')
+
+    def set_add(self, s: SetV, x, path):
+        for y in s.concrete:
+            r = self.eq(y, x, path)
+            if r is True or (r is not False and path.branch(r)):
+                return
+        s.concrete.append(x)
+
+    def set_has_symbolic(self, s: SetV):
+        return s.sym is None and any(isinstance(x, StrT) for x in (s.concrete or ()))
 
     def e_Dict(self, node, env, path):
         d = {}
